@@ -99,6 +99,8 @@ def run_history(spec, rec):
         rec.check("history-independent", r["digest"] == a["digest"], site=c[0], tags=tags,
                   observed={"in_history": r["digest"], "alone": a["digest"], "preceded_by": [x[0] for x in calls[:j]][-8:]})
         rec.check("inputs-unmodified", bool(r["inputs_unchanged"]), site=c[0], tags=tags)
+        if "pair_equal" in r:
+            rec.check("repeated-call-same-result", bool(r["pair_equal"]), site=c[0], tags=tags, observed=r.get("pair_second"))
         rec.check("what-raises-in-numpy-unchanged", bool(r.get("errstate_unchanged", True)), site=c[0], tags=tags, observed=r.get("errstate"))
         if "aliases_input" in r:
             rec.check("integrator-returns-fresh-array", not r["aliases_input"], site=c[0], tags=tags)
@@ -163,6 +165,8 @@ def run_catalogue(spec, rec):
         rec.check("history-independent", cold["digest"] == warm["digest"], site=c[0], tags=dict(tags, kind="cold-vs-warm"),
                   observed={"cold": cold["digest"], "warm": warm["digest"]})
         rec.check("inputs-unmodified", bool(cold["inputs_unchanged"] and warm["inputs_unchanged"]), site=c[0], tags=tags)
+        if "pair_equal" in cold:
+            rec.check("repeated-call-same-result", bool(cold["pair_equal"] and warm.get("pair_equal", True)), site=c[0], tags=tags, observed=cold.get("pair_second") or warm.get("pair_second"))
         rec.check("what-raises-in-numpy-unchanged", bool(cold.get("errstate_unchanged", True) and warm.get("errstate_unchanged", True)), site=c[0], tags=tags,
                   observed=cold.get("errstate") or warm.get("errstate"))
         if "aliases_input" in cold:
